@@ -4,8 +4,6 @@ regenerated from /repo on every run, and its recorded finding.  (Separate file: 
 evaluated by the kernel on a 350-node IR; Lake checks this file in parallel with Props/C14.lean.)
 -/
 import DosModel.Props.C14
-import DosModel.Proofs.PipeExploreSound
-import DosModel.Proofs.PipeWitness
 
 namespace Dos.Props.C14
 open Dos Dos.Pipe Dos.Gen.Pipes
@@ -18,36 +16,36 @@ theorem grouping_pipeline_terminates_and_never_crashes :
   have h := pipeline_terminates_and_never_crashes _ grouping_wf
   exact ⟨h.1, fun s hr hc => by obtain ⟨s', a, b, _⟩ := h.2 s hr hc; exact ⟨s', a, b⟩⟩
 
-/-! ## the recorded finding
+/-! ## every channel of a key-generation session is closed in the end
 
-The full statement of the property also asks that every channel of a session is closed in the end.
-That is rule W7; it holds for the query pipelines (`query_*_wf` list no W7 entry), and fails for
-one site of the key-generation pipeline, recorded as a known finding. -/
+The full statement of the property also asks that every channel of a session is closed in the end:
+rule W7 (a static pipeline goroutine closes it on every path, or its creator closes it or hands it
+to the collector loop, which can always get to the close by its own ticker and the request's
+context).  On this tree no violation at all is left in the key-generation pipeline (the reply
+channels of incomplete requests are released by the expiry sweep of pdkg.Loop, fix 8d5de85). -/
 
-/-- the full property for the key-generation pipeline (NOT provable on this tree: see below) -/
-def C14_grouping_full : Prop := violations grouping = []
-
-/-- the proved part: every violation of the key-generation pipeline is a recorded one, and the
-recorded ones are exactly the reply channel that pdkg.Loop keeps open -/
-theorem grouping_partial :
-    (∀ v ∈ violations grouping, v ∈ Gen.PipeKnown.sites) ∧
-    Gen.PipeKnown.sites = [{ rule := 7, g := "dkg.Loop", c := "dkg.askMembers.out" }] := by
-  refine ⟨?_, by decide⟩
-  intro v hv
+/-- the full property for the key-generation pipeline: no rule W0–W7 is violated -/
+theorem grouping_full : violations grouping = [] := by
   have h := grouping_wf
+  have hk : Gen.PipeKnown.sites = [] := by decide
+  rw [hk] at h
   unfold subsetOf at h
-  rw [List.all_eq_true] at h
-  simpa using h v hv
+  cases hv : violations grouping with
+  | nil => rfl
+  | cons v vs =>
+    rw [hv] at h
+    simp at h
 
-/-- **negation witness (known finding W7:dkg.Loop:dkg.askMembers.out).**  In the regenerated model
-of `askMembers` + `pdkg.Loop`: the request is registered, one of the two public keys arrives, the
-deadline fires, the harness releases — a state is reachable in which nothing can move any more and
-the reply channel is still open (pdkg.Loop never closes the reply channel of an incomplete
-request).  The same scenario is replayed on the real goroutines at every run (corpus/C14/grouping.txt). -/
-theorem loop_keeps_reply_open :
-    ∃ s, Reach (Wit.scOf grouping Wit.askSpec).p s ∧
-      (Wit.Scenario.stuck (Wit.scOf grouping Wit.askSpec) s && s.ctxDone 0 &&
-        Wit.Scenario.firstOpen (Wit.scOf grouping Wit.askSpec) s) = true :=
-  reachSet_any (fuel := 400) (by decide +kernel)
+/-- the same for the three query pipelines -/
+theorem query_full : violations query_sys = [] ∧ violations query_user = [] ∧ violations query_url = [] := by
+  have hk : Gen.PipeKnown.sites = [] := by decide
+  have f : ∀ p, subsetOf (violations p) Gen.PipeKnown.sites = true → violations p = [] := by
+    intro p h
+    rw [hk] at h
+    unfold subsetOf at h
+    cases hv : violations p with
+    | nil => rfl
+    | cons v vs => rw [hv] at h; simp at h
+  exact ⟨f _ query_sys_wf, f _ query_user_wf, f _ query_url_wf⟩
 
 end Dos.Props.C14
